@@ -689,16 +689,30 @@ def check_condition(prog, site, cond):
         # the format handed to DateTime::format is the payload of `adt::variant` (possibly through str::replace with a
         # valid constant), and every construction of that variant stores either a valid constant or a string that passed
         # `StrftimeItems::new(..).next()` != None/Item::Error on the way
-        o = prim.expand_single_def_vars(fn, prim.origin_of_operand(fn, t.args[1]))
-        names = {c.a["name"] for c in o.call_nodes()}
-        if not names <= {"replace", "deref", "as_str", "as_ref", "borrow"}:
-            return False, "format operand %s goes through %s" % (o.fmt()[:120], sorted(names))
-        if not any(x.k == "variant" and str(x.a) == cond["variant"] for x in o.walk()):
-            return False, "format operand %s is not the payload of %s" % (o.fmt()[:120], cond["variant"])
-        for c in o.consts():
-            v = c.get("v")
-            if isinstance(v, str) and v != "%+" and _strftime_invalid(v):
-                return False, "constant %r is not a valid strftime format" % v
+        o0 = prim.resolve_promoted(fn, prim.expand_single_def_vars(fn, prim.origin_of_operand(fn, t.args[1])))
+        # the format may be chosen first (`let f = match self { Ctime => CONST, Strftime(s) => s, .. }`) and used once
+        s0 = o0.strip()
+        while s0.k == "call" and s0.a["name"] in ("deref", "as_str", "as_ref", "borrow") and s0.kids:
+            s0 = s0.kids[0].strip()
+        if s0.k == "var" and s0.a.get("local") is not None and len([x for x in prim.local_defs(fn).get(s0.a["local"], []) if x[1] != "partial"]) > 1:
+            alts = [prim.resolve_promoted(fn, prim.expand_single_def_vars(fn, od_)) for _, od_ in prim.defs_origins(fn, s0.a["local"])]
+        else:
+            alts = list(prim.flatten_phi(o0))
+        any_payload = False
+        for o in alts:
+            names = {c.a["name"] for c in o.call_nodes()}
+            if not names <= {"replace", "deref", "as_str", "as_ref", "borrow"}:
+                return False, "format operand %s goes through %s" % (o.fmt()[:120], sorted(names))
+            is_payload = any(x.k == "variant" and str(x.a) == cond["variant"] for x in o.walk())
+            any_payload = any_payload or is_payload
+            if not is_payload and any(x.k in ("arg", "var", "field") for x in o.walk()):
+                return False, "format operand %s is not the payload of %s" % (o.fmt()[:120], cond["variant"])
+            for c in o.consts():
+                v = c.get("v")
+                if isinstance(v, str) and v != "%+" and _strftime_invalid(v):
+                    return False, "constant %r is not a valid strftime format" % v
+        if not any_payload:
+            return False, "format operand %s is not the payload of %s" % (o0.fmt()[:120], cond["variant"])
         n = 0
         for f2 in prog.fns.values():
             if "::tests::" in f2.path or f2.crate != fn.crate:
